@@ -372,7 +372,7 @@ int main(int argc, char **argv) {
                             : "oracle: allocation monitor (operator new/delete): largest single request <= C0 + K*(len + declared counts x "
                               "element size), peak live bytes <= 4x that; C0 = 12 MiB, K = 32";
   R.assumptions = {"single requests above 64 MiB are refused by the harness allocator (std::bad_alloc) and judged against the declared-count budget",
-                   ">= 3 simultaneous deviations are not explored; streams > 4 KiB only by truncation and reduced alphabets"};
+                   ">= 3 simultaneous deviations are not explored; streams > 4 KiB only by truncation (every cut in the first 2 KiB, every 257th behind) and the reduced byte alphabet on their first 3000 bytes"};
   R.transition_counters = {"decode_ok", "decode_rejected", "decode_threw"};
 
   const std::vector<int> modes_q = {0, 1}, modes_all = {0, 1, 2, 3, 4, 5}, mode0 = {0};
@@ -407,7 +407,20 @@ int main(int argc, char **argv) {
     std::vector<int> all;
     for (size_t i = 0; i < g_corpus.size(); ++i) all.push_back((int)i);
     add_space(R, "trunc_sub", sub_and_files, len, trunc, modes_all, true, false);
-    add_space(R, "trunc_all", all, len, trunc, modes_all, false, true);
+    add_space(R, "trunc_all", all_small, len, trunc, modes_all, false, true);
+    // streams above 4 KiB (5 testdata files up to 120 KB, the larger generator streams): every cut in the first 2 KiB
+    // and every 257th cut behind it
+    std::vector<int> big;
+    for (int i : all)
+      if (g_corpus[i].bytes.size() > 4096) big.push_back(i);
+    Mutator trunc_big = [](const Entry &e, uint64_t k, Bytes *out, std::string *op) {
+      const uint64_t cut = k < 2048 ? k : 2048 + (k - 2048) * 257;
+      if (cut >= e.bytes.size()) return false;
+      out->assign(e.bytes.begin(), e.bytes.begin() + cut);
+      *op = "trunc(" + std::to_string(cut) + ")";
+      return true;
+    };
+    add_space(R, "trunc_large_streams", big, [](const Entry &e) { return (uint64_t)2048 + (e.bytes.size() - 2048) / 257 + 1; }, trunc_big, mode0, false, true);
   }
   Mutator byte8 = [](const Entry &e, uint64_t k, Bytes *out, std::string *op) {
     const size_t i = k / 8;
